@@ -354,6 +354,174 @@ pub fn is_decomposed_name(name: &str) -> bool {
     name.starts_with("Decomposed<")
 }
 
+pub struct ReadFacts<'a> {
+    pub root: &'a Node,
+    pub opened: &'a [(SmallPath, Vec<Deliver>)],
+    pub err_fired: bool,
+    /// an error / truncation hit before every top-level field had been delivered completely
+    pub err_before_all: bool,
+    pub keyed: bool,
+    pub is_dec: bool,
+    pub patched: bool,
+}
+
+/// Decide which assertion the property puts on this read, from what was actually delivered, and
+/// evaluate it. Returns true when any fault took effect.
+pub fn judge_read<T: Subject>(
+    out: &mut Outcome,
+    facts: &ReadFacts,
+    result: &Result<T, String>,
+    expected: &[u64],
+    leaf_paths: &[SmallPath],
+) -> bool {
+    // classify what happened to this read, from what was actually delivered
+    let mut top_drop = false;
+    let mut top_unknown = false;
+    let mut top_dup = false;
+    let mut top_reorder = false;
+    let mut nested_reorder = false;
+    let mut nested_struct = false;
+    let mut skip = vec![false; expected.len()];
+    for (path, order) in facts.opened {
+        let n = match node_at(facts.root, path.as_slice()) {
+            Some(Node::Struct { entries, .. }) => entries.len(),
+            _ => continue,
+        };
+        let top = path.len == 0;
+        let mut seen = [0u8; 32];
+        let mut last: i32 = -1;
+        let mut reordered = false;
+        let mut unknown = false;
+        for d in order {
+            match d {
+                Deliver::Orig(i) => {
+                    let i = *i as usize;
+                    if i < 32 {
+                        if seen[i] == 0 && (i as i32) < last {
+                            reordered = true;
+                        }
+                        if seen[i] == 0 {
+                            last = last.max(i as i32);
+                        }
+                        seen[i] = seen[i].saturating_add(1);
+                    }
+                }
+                Deliver::Unknown(_) => unknown = true,
+            }
+        }
+        let missing = (0..n.min(32)).any(|i| seen[i] == 0);
+        let dup = (0..n.min(32)).any(|i| seen[i] > 1);
+        if top {
+            top_drop |= missing;
+            top_unknown |= unknown;
+            top_dup |= dup;
+            top_reorder |= reordered;
+        } else {
+            nested_struct |= missing || unknown || dup;
+            nested_reorder |= reordered;
+        }
+        // leaves under an entry that was not delivered are not expected to carry the stored value
+        if missing && leaf_paths.len() == expected.len() {
+            let p = path.as_slice();
+            for (li, lp) in leaf_paths.iter().enumerate() {
+                let s = lp.as_slice();
+                if s.len() > p.len() && s.starts_with(p) {
+                    let i = s[p.len()] as usize;
+                    if i < 32 && seen[i] == 0 {
+                        skip[li] = true;
+                    }
+                }
+            }
+        }
+    }
+    let err_fired = facts.err_fired;
+    let err_before_all = facts.err_before_all;
+    let any_applied = top_drop || top_unknown || top_dup || top_reorder || nested_reorder || nested_struct || err_fired;
+
+    let keyed = facts.keyed;
+    let is_dec = facts.is_dec;
+    let patched = facts.patched;
+    let shape = T::shape();
+    let r_result = result;
+    let expect_ok_equal = |out: &mut Outcome, id: &'static str, what: &str| {
+        out.evaluated[assert_index(id)] += 1;
+        match r_result {
+            Ok(v2) => {
+                if let Err(e) = all_leaves_equal(v2, &expected, &[]) {
+                    if out.failure.is_none() {
+                        out.failure = Some(Failure { assert_id: id, observed: format!("{}: {}", what, e) });
+                    }
+                }
+            }
+            Err(e) => {
+                if out.failure.is_none() {
+                    out.failure = Some(Failure {
+                        assert_id: id,
+                        observed: format!("{}: deserialize returned Err({})", what, e),
+                    });
+                }
+            }
+        }
+    };
+    let expect_err = |out: &mut Outcome, id: &'static str, what: &str| {
+        out.evaluated[assert_index(id)] += 1;
+        if let Ok(v2) = r_result {
+            let mut got = Vec::new();
+            v2.read(&mut got);
+            if out.failure.is_none() {
+                out.failure = Some(Failure {
+                    assert_id: id,
+                    observed: format!("{}: deserialize returned Ok({})", what, render_leaves(&shape, &got)),
+                });
+            }
+        }
+    };
+    let expect_no_wrong_data = |out: &mut Outcome, what: &str| {
+        out.evaluated[assert_index("A9")] += 1;
+        if let Ok(v2) = r_result {
+            if leaf_paths.len() == expected.len() {
+                if let Err(e) = all_leaves_equal(v2, &expected, &skip) {
+                    if out.failure.is_none() {
+                        out.failure = Some(Failure { assert_id: "A9", observed: format!("{}: {}", what, e) });
+                    }
+                }
+            }
+        }
+    };
+
+    let a1 = if patched { "AP" } else { "A1" };
+    if !keyed {
+        // positional medium: names are not on the wire, structural faults are meaningless
+        if !any_applied && !is_dec {
+            expect_ok_equal(out, a1, "fault-free positional round trip");
+        } else if !top_drop && !top_unknown && !top_dup && !top_reorder && !nested_reorder && !nested_struct {
+            expect_no_wrong_data(out, "positional medium");
+        }
+    } else if is_dec && top_drop {
+        expect_err(out, "A4", "a top-level field of Decomposed was never delivered");
+    } else if is_dec && top_unknown {
+        expect_err(out, "A5", "an unknown top-level field was delivered to Decomposed");
+    } else if err_fired {
+        if is_dec && err_before_all {
+            expect_err(out, "A7", "the read failed before all three fields of Decomposed had arrived");
+        } else {
+            expect_no_wrong_data(out, "read error");
+        }
+    } else if nested_struct || top_dup || top_drop || top_unknown {
+        expect_no_wrong_data(out, "structural fault");
+    } else if top_reorder || nested_reorder {
+        if is_dec && !nested_reorder {
+            expect_ok_equal(out, "A3", "fields of Decomposed delivered in another order");
+        } else {
+            expect_no_wrong_data(out, "reordered record");
+        }
+    } else {
+        expect_ok_equal(out, a1, "fault-free round trip");
+    }
+
+    any_applied
+}
+
 /// Execute one plan for type `T`.
 pub fn run_plan<T: Subject>(plan: &Plan, opts: RunOpts) -> Outcome {
     let mut out = Outcome::default();
@@ -540,151 +708,20 @@ pub fn run_plan<T: Subject>(plan: &Plan, opts: RunOpts) -> Outcome {
                 .collect();
         }
 
-        // classify what happened to this read, from what was actually delivered
-        let mut top_drop = false;
-        let mut top_unknown = false;
-        let mut top_dup = false;
-        let mut top_reorder = false;
-        let mut nested_reorder = false;
-        let mut nested_struct = false;
-        let mut skip = vec![false; expected.len()];
-        for (path, order) in &r.opened {
-            let n = match node_at(root, path.as_slice()) {
-                Some(Node::Struct { entries, .. }) => entries.len(),
-                _ => continue,
-            };
-            let top = path.len == 0;
-            let mut seen = [0u8; 32];
-            let mut last: i32 = -1;
-            let mut reordered = false;
-            let mut unknown = false;
-            for d in order {
-                match d {
-                    Deliver::Orig(i) => {
-                        let i = *i as usize;
-                        if i < 32 {
-                            if seen[i] == 0 && (i as i32) < last {
-                                reordered = true;
-                            }
-                            if seen[i] == 0 {
-                                last = last.max(i as i32);
-                            }
-                            seen[i] = seen[i].saturating_add(1);
-                        }
-                    }
-                    Deliver::Unknown(_) => unknown = true,
-                }
-            }
-            let missing = (0..n.min(32)).any(|i| seen[i] == 0);
-            let dup = (0..n.min(32)).any(|i| seen[i] > 1);
-            if top {
-                top_drop |= missing;
-                top_unknown |= unknown;
-                top_dup |= dup;
-                top_reorder |= reordered;
-            } else {
-                nested_struct |= missing || unknown || dup;
-                nested_reorder |= reordered;
-            }
-            // leaves under an entry that was not delivered are not expected to carry the stored value
-            if missing && leaf_paths.len() == expected.len() {
-                let p = path.as_slice();
-                for (li, lp) in leaf_paths.iter().enumerate() {
-                    let s = lp.as_slice();
-                    if s.len() > p.len() && s.starts_with(p) {
-                        let i = s[p.len()] as usize;
-                        if i < 32 && seen[i] == 0 {
-                            skip[li] = true;
-                        }
-                    }
-                }
-            }
-        }
-        let err_fired = !r.fired.is_empty();
         let all_top: u32 = match skip_wrappers(root) {
             Node::Struct { entries, .. } => (1u32 << entries.len().min(31)) - 1,
             _ => 0,
         };
-        let err_before_all = r.fired.iter().any(|f| f.top_done & all_top != all_top);
-        let any_applied = top_drop || top_unknown || top_dup || top_reorder || nested_reorder || nested_struct || err_fired;
-
-        let keyed = medium.keyed();
-        let expect_ok_equal = |out: &mut Outcome, id: &'static str, what: &str| {
-            out.evaluated[assert_index(id)] += 1;
-            match &r.result {
-                Ok(v2) => {
-                    if let Err(e) = all_leaves_equal(v2, &expected, &[]) {
-                        if out.failure.is_none() {
-                            out.failure = Some(Failure { assert_id: id, observed: format!("{}: {}", what, e) });
-                        }
-                    }
-                }
-                Err(e) => {
-                    if out.failure.is_none() {
-                        out.failure = Some(Failure {
-                            assert_id: id,
-                            observed: format!("{}: deserialize returned Err({})", what, e),
-                        });
-                    }
-                }
-            }
+        let facts = ReadFacts {
+            root,
+            opened: &r.opened,
+            err_fired: !r.fired.is_empty(),
+            err_before_all: r.fired.iter().any(|f| f.top_done & all_top != all_top),
+            keyed: medium.keyed(),
+            is_dec,
+            patched,
         };
-        let expect_err = |out: &mut Outcome, id: &'static str, what: &str| {
-            out.evaluated[assert_index(id)] += 1;
-            if let Ok(v2) = &r.result {
-                let mut got = Vec::new();
-                v2.read(&mut got);
-                if out.failure.is_none() {
-                    out.failure = Some(Failure {
-                        assert_id: id,
-                        observed: format!("{}: deserialize returned Ok({})", what, render_leaves(&shape, &got)),
-                    });
-                }
-            }
-        };
-        let expect_no_wrong_data = |out: &mut Outcome, what: &str| {
-            out.evaluated[assert_index("A9")] += 1;
-            if let Ok(v2) = &r.result {
-                if leaf_paths.len() == expected.len() {
-                    if let Err(e) = all_leaves_equal(v2, &expected, &skip) {
-                        if out.failure.is_none() {
-                            out.failure = Some(Failure { assert_id: "A9", observed: format!("{}: {}", what, e) });
-                        }
-                    }
-                }
-            }
-        };
-
-        let a1 = if patched { "AP" } else { "A1" };
-        if !keyed {
-            // positional medium: names are not on the wire, structural faults are meaningless
-            if !any_applied && !is_dec {
-                expect_ok_equal(&mut out, a1, "fault-free positional round trip");
-            } else if !top_drop && !top_unknown && !top_dup && !top_reorder && !nested_reorder && !nested_struct {
-                expect_no_wrong_data(&mut out, "positional medium");
-            }
-        } else if is_dec && top_drop {
-            expect_err(&mut out, "A4", "a top-level field of Decomposed was never delivered");
-        } else if is_dec && top_unknown {
-            expect_err(&mut out, "A5", "an unknown top-level field was delivered to Decomposed");
-        } else if err_fired {
-            if is_dec && err_before_all {
-                expect_err(&mut out, "A7", "the read failed before all three fields of Decomposed had arrived");
-            } else {
-                expect_no_wrong_data(&mut out, "read error");
-            }
-        } else if nested_struct || top_dup || top_drop || top_unknown {
-            expect_no_wrong_data(&mut out, "structural fault");
-        } else if top_reorder || nested_reorder {
-            if is_dec && !nested_reorder {
-                expect_ok_equal(&mut out, "A3", "fields of Decomposed delivered in another order");
-            } else {
-                expect_no_wrong_data(&mut out, "reordered record");
-            }
-        } else {
-            expect_ok_equal(&mut out, a1, "fault-free round trip");
-        }
-
+        let any_applied = judge_read(&mut out, &facts, &r.result, &expected, &leaf_paths);
         if opts.trace {
             let d = out.detail.get_or_insert_with(RunDetail::default);
             d.read_result = match &r.result {
